@@ -239,17 +239,49 @@ def run(ctx):
         # the split value comes from `suggest`, whose text parameter is the buffer at every call site
         return ok and seen and buf_ascii and _builder_text_is_buffer(prog, R, roles, ph)
 
-    for fk in sorted(reach):
+    from engine.inline import inlined_body
+    _pbodies = {}
+
+    def closure_in_parent(ck):
+        """A closure handed to an Option / Result combinator is analysed where it runs: in its creator's body with the closure spliced in
+        (its captures are then ordinary values of the creator).  Returns (creator key, body, blocks of the closure) or None."""
+        cc_ = closure_creation(prog, ck)
+        if not cc_:
+            return None
+        pk_ = cc_[0].key
+        if prog.fns.get(pk_, {}).get("kind") == "Closure":
+            return None
+        if pk_ not in _pbodies:
+            _pbodies[pk_] = inlined_body(prog, pk_, stop=lambda g: True)
+        pb_ = _pbodies[pk_]
+        blks = [i_ for i_ in pb_.rblocks if pb_.blocks[i_].get("inl") == ck]
+        return (pk_, pb_, blks) if blks else None
+
+    for fk0 in sorted(reach):
+        fk = fk0
         b = prog.body(fk)
         f = prog.fns[fk]
-        for i in b.rblocks:
+        block_ids = list(b.rblocks)
+        if f.get("kind") != "Closure":
+            # sites are those of the function itself; values are resolved with its private helpers spliced in (same block numbering)
+            try:
+                from . import roles as _roles
+                b = _roles.ib(prog, fk)
+            except Exception:
+                b = prog.body(fk)
+        if f.get("kind") == "Closure":
+            cip = closure_in_parent(fk0)
+            if cip:
+                fk, b, block_ids = cip
+                f = prog.fns[fk]
+        for i in block_ids:
             t = b.blocks[i]["term"]
             if t["k"] == "assert":
                 kind = t["kind"]
                 if kind in ("MisalignedPointerDereference", "NullPointerDereference"):
                     continue
                 n_total += 1
-                key = ob_key(fk, kind)
+                key = ob_key(fk0, kind)
                 ok, why = discharge_assert(prog, ctx, fk, b, i, kind, reph_fns, sub13, loop_bounds_ok, nonneg, sub_forms, word_param_pred, word_is_ascii)
                 if ok:
                     r3.ok(key, why)
@@ -263,7 +295,7 @@ def run(ctx):
                 if is_panic_fn or is_panicky:
                     n_total += 1
                     kind = "panic" if is_panic_fn else n.split("::")[-1]
-                    key = ob_key(fk, kind)
+                    key = ob_key(fk0, kind)
                     ok, why = discharge_call(prog, ctx, fk, b, i, t, n, R, roles, reph_fns, sub13, sub15, sub07, sub10, loop_bounds_ok, nonneg, sub_forms,
                                              word_param_pred, word_is_ascii, chk, r3)
                     if ok:
@@ -273,7 +305,7 @@ def run(ctx):
                 elif not c.get("local") and not (n.startswith("std::") or n.startswith("core::") or n.startswith("alloc::") or n.startswith("<")) \
                         and c.get("rkind") != "virtual" and n not in prog.fns:
                     n_total += 1
-                    key = ob_key(fk, "dep:" + n.split("::")[-1])
+                    key = ob_key(fk0, "dep:" + n.split("::")[-1])
                     contract = DEPS.get(n)
                     if contract is None:
                         r3.violation(key, "call of %s, which is not in the dependency contract table (cannot show that it does not panic)" % n, site_of(b, i))
@@ -288,7 +320,7 @@ def run(ctx):
                     else:
                         r3.ok(key, "dependency contract: %s" % contract)
             # RangeFrom<u8> zipped as ranks
-        for (i2, j2, s2) in b.stmts():
+        for (i2, j2, s2) in (b.stmts() if fk == fk0 else []):
             if s2["k"] == "assign" and s2["rv"]["k"] == "aggregate" and s2["rv"].get("adt", "").endswith("ops::RangeFrom") and s2["place"]["ty"].endswith("RangeFrom<u8>"):
                 n_total += 1
                 key = ob_key(fk, "RangeFrom<u8>")
@@ -471,7 +503,8 @@ def ascii_input(prog, ctx, fk, b, t, R, roles, ph, buf_ascii, acc):
         from . import c05
         if c05._param_is_word_slice(prog, fk, a.a[0], acc):
             return (buf_ascii and _builder_text_is_buffer(prog, R, roles, ph)), "the word parameter (ASCII by C01.R2)"
-    sc = contains_call(a, lambda n: n.endswith("search_corrected"))
+    from . import phonetic as _ph
+    sc = True if _ph.is_autocorrect_value(prog, a) else None
     if sc is not None:
         # user branch filtered by is_ascii (C10.R2), bundled branch: table check
         from . import c01 as _self
@@ -511,6 +544,13 @@ def discharge_assert(prog, ctx, fk, b, i, kind, reph_fns, sub13, loop_bounds_ok,
                 o = other[0]
                 if o.k == "call" and any(o.a[0].endswith(s) for s in ("::len", "::capacity", "::count", "edit_distance", "Metadata::len")):
                     return True, "A-mem: %s(in-memory object) %s %d cannot overflow (no string/list/file longer than 2^60)" % (o.a[0].split("::")[-1], op, const_val(small[0]))
+                if o.k == "arg" and prog.fns[fk].get("kind") != "Closure":
+                    # a length handed in as a parameter of a private helper: every call site passes a length of an in-memory object
+                    prog.callgraph()
+                    cs_ = prog.call_sites.get(fk, [])
+                    acts = [strip_refs(peel_conv(prog.body(c_).expr_operand(ct_["args"][o.a[0] - 1]))) for (c_, cbb_, ct_) in cs_ if len(ct_["args"]) >= o.a[0]]
+                    if cs_ and len(acts) == len(cs_) and all(a_.k == "call" and any(a_.a[0].endswith(s_) for s_ in ("::len", "::capacity", "::count")) for a_ in acts):
+                        return True, "A-mem: parameter %d is a length of an in-memory object at every call site; × / + %d cannot overflow" % (o.a[0], const_val(small[0]))
                 if o.k == "arg" and prog.fns[fk].get("kind") == "Closure":
                     cons = closure_consumer(prog, fk)
                     if cons and callee_name(cons[2]).endswith("::map") and contains_call(cons[0].expr_operand(cons[2]["args"][0]), lambda n: n.endswith("metadata")) is not None:
